@@ -11,14 +11,17 @@ package c11
 
 import (
 	"fmt"
+	"hash/fnv"
 	"math"
 	"math/rand"
 	"os"
 	"path/filepath"
 	"strings"
+	"sync/atomic"
 
 	"github.com/tsawler/tabula"
 	"github.com/tsawler/tabula/layout"
+	"github.com/tsawler/tabula/reader"
 	"github.com/tsawler/tabula/text"
 
 	"verifharness/fw"
@@ -57,10 +60,27 @@ func applyTextMode(e *tabula.Extractor, tm string) *tabula.Extractor {
 	return e
 }
 
+// sharedReaderViews counts the views served by a pre-used, caller-owned reader.
+var sharedReaderViews atomic.Int64
+
 // view runs one facade API and returns its text rendering.
 func view(path string, pagesSel []int, selHow, mode, api, tm string) (string, error) {
 	e := tabula.Open(path)
 	defer e.Close()
+	// a third of the views run on a caller-owned reader.Reader that has already
+	// served a filtered and an unfiltered extraction: what exclusion removed from
+	// one result must not be missing from (or doubled in) the next
+	h := fnv.New32a()
+	fmt.Fprint(h, path, pagesSel, selHow, mode, api, tm)
+	if h.Sum32()%3 == 0 {
+		if rd, err := reader.Open(path); err == nil {
+			defer rd.Close()
+			tabula.FromReader(rd).ExcludeHeadersAndFooters().Text()
+			tabula.FromReader(rd).Fragments()
+			e = tabula.FromReader(rd)
+			sharedReaderViews.Add(1)
+		}
+	}
 	// order of the builder calls is seed-chosen by the caller through selHow
 	sel := func(e *tabula.Extractor) *tabula.Extractor {
 		if len(pagesSel) == 0 {
@@ -618,6 +638,7 @@ func Run(c *fw.Ctx) {
 	c.Parallel(n, func(i int) { runPDF(c, dir, i) })
 	runWitness(c, dir)
 	runOffice(c, dir)
+	c.Count("facade_views_on_a_pre_used_shared_reader", sharedReaderViews.Load())
 
 	if c.Only == "" {
 		if mm, tot := c.Counter("facade_baseline_mismatch"), c.Counter("facade_requests"); tot > 0 && mm*5 > tot {
